@@ -262,5 +262,59 @@ def _(v):
         except Exception as e:
             res11[mode] = (False, repr(e))
     v.prove("eleven_species_single_ray_modes_agree", all(ok for ok, _ in res11.values()), "; ".join("%s: %s" % (m, d) for m, (ok, d) in res11.items() if not ok))
+    # exact rationals with large denominators are balanced as given (no rounding of the composition matrix)
+    big = {"A": Substance("A", composition={1: fractions.Fraction(1000001, 3000000)}), "B": Substance("B", composition={1: fractions.Fraction(1000001, 1000000)})}
+    okbig = []
+    for mode in (True, False, None):
+        try:
+            rb, pb = bs(["A"], ["B"], substances=big, underdetermined=mode)
+            okbig.append((dict(rb), dict(pb)) == ({"A": 3}, {"B": 1}))
+        except Exception as e:
+            okbig.append(repr(e))
+    v.prove("large_denominator_compositions_balanced_as_given", okbig == [True, True, True], detail=repr(okbig))
+    dec = {"A": Substance("A", composition={1: 0.94700001, 8: 1}), "B": Substance("B", composition={1: 1.89400002, 8: 2})}
+    try:
+        rd, pd_ = bs(["A"], ["B"], substances=dec)
+        okdec = (dict(rd), dict(pd_)) == ({"A": 2}, {"B": 1})
+    except Exception as e:
+        okdec = repr(e)
+    v.prove("eight_decimal_compositions_balanced_as_given", okdec is True, detail=repr(okdec))
+    # nothing is remembered between calls: the same keys with another substance_factory are balanced against THAT factory's compositions
+    lab_a, lab_b = {"ox": {8: 3}, "atom": {8: 1}}, {"ox": {8: 2}, "atom": {8: 1}}
+    fa = lambda k: Substance(k, composition=dict(lab_a[k]))
+    fb = lambda k: Substance(k, composition=dict(lab_b[k]))
+    seq = []
+    for fac in (fa, fb, fa):
+        rr, pp = bs(["ox"], ["atom"], substance_factory=fac)
+        seq.append((dict(rr), dict(pp)))
+    v.prove("no_state_between_calls", seq == [({"ox": 1}, {"atom": 3}), ({"ox": 1}, {"atom": 2}), ({"ox": 1}, {"atom": 3})], detail=repr(seq))
+    # default (symbolic) mode: an answer with free parameters must admit positive parameter values that make every coefficient positive;
+    # when no assignment of positive coefficients balances the species as placed, a ValueError is due, not an answer
+    def feasible(coeffs):
+        import sympy
+        from scipy.optimize import linprog
+        syms = sorted({x for c in coeffs for x in sympy.sympify(c).free_symbols}, key=str)
+        if not syms:
+            return all(c > 0 for c in coeffs)
+        rows, rhs = [], []
+        for c in coeffs:                         # c(x) = a + b.x >= eps   <=>   -b.x + eps <= a
+            c = sympy.expand(sympy.sympify(c))
+            b = [float(c.coeff(x)) for x in syms]
+            a = float(c.subs({x: 0 for x in syms}))
+            rows.append([-bi for bi in b] + [1.0])
+            rhs.append(a)
+        for j in range(len(syms)):               # x_j >= eps
+            rows.append([-1.0 if i == j else 0.0 for i in range(len(syms))] + [1.0])
+            rhs.append(0.0)
+        res = linprog([0.0] * len(syms) + [-1.0], A_ub=rows, b_ub=rhs, bounds=[(None, None)] * len(syms) + [(None, 1.0)])
+        return bool(res.status == 0 and -res.fun > 1e-9)
+    for label, (rs_, ps_), has_positive_solution in (("carbonate", (["H+", "H2O", "HCO3-"], ["CO2", "OH-"]), False), ("formic", (["CH3OH", "H2CO3", "HCOOH"], ["C2H4", "H2O"]), False),
+                                                     ("two_oxides", (["C", "O2"], ["CO", "CO2"]), True), ("iron_oxides", (["Fe", "O2"], ["FeO", "Fe2O3"]), True)):
+        try:
+            rr, pp = bs(rs_, ps_)
+            okf, det = feasible(list(rr.values()) + list(pp.values())), "%s -> %s" % (dict(rr), dict(pp))
+        except ValueError as e:
+            okf, det = (not has_positive_solution), "refused: %s" % e
+        v.prove("default_mode_answer_admits_positive_coefficients." + label, okf, detail=det)
     r, p = bs(["H3.5", "HO2Cl3.5"], ["HO2.5", "H2.5Cl"])
     v.prove("fractional_compositions_balanced_exactly", (dict(r), dict(p)) == ({"H3.5": 171, "HO2Cl3.5": 70}, {"HO2.5": 56, "H2.5Cl": 245}))
